@@ -87,7 +87,11 @@ def evaluate(case):
     g, v = np.asarray(g, dtype=float), np.asarray(v, dtype=float)
     n = int((xmax - xmin) / xdiv) + 1
     if len(g) != n or abs(g[0] - xmin) > 0 or (g > xmax + 1e-12).any() or exceeds(np.abs(np.diff(g) - xdiv).max(initial=0.0), 1e-9):
-        fails.append("grid is not xmin + k*xdiv, k < floor((xmax-xmin)/xdiv)+1, within xmax")
+        fails.append("grid is not xmin + k*xdiv, k < floor((xmax-xmin)/xdiv)+1, within xmax"
+                     + (f": {len(g)} points returned, {n} expected; last grid point {g[-1]!r} lies beyond xmax={xmax!r}" if len(g) and g[-1] > xmax + 1e-12
+                        else f": {len(g)} points returned, {n} expected" if len(g) != n else ""))
+    if len(g) != n or len(v) != n:
+        return fails
     rg, rv = hat_reference(x, y, xmin, xdiv, xmax)
     ok = np.isfinite(rv)
     # points that sit within 1e-9 of a node may change bins through rounding of (x-xmin)/xdiv: compare with a tolerance
